@@ -45,7 +45,7 @@ def run(ctx):
         for t in tables:
             acc += mapping_accesses(m, lambda e, t=t: isinstance(e, ast.Attribute) and e.attr == t
                                     and isinstance(e.value, ast.Name) and e.value.id == "self")
-    ctx.floor("R10.1", "accessors of the open-scope table", len(acc), 3)
+    ctx.floor("R10.1", "accessors of the open-scope table", len(acc), 2)
     check_uniform(ctx, "R10.1", acc, {"casefold"}, "the open-scope table self.%s" % "/".join(tables),
                   "an Offset/Inset whose name differs from its Onset only in letter case is reported as unmatched "
                   "(or a stale scope stays open)")
